@@ -414,7 +414,11 @@ func genC08(r *Rand, tier string) []Case {
 			}
 			tags = append(tags, "where")
 		}
-		if r.Chance(35) {
+		if r.Chance(12) {
+			// whole-table aggregates inside every inner dimension
+			q.Items = []Item{genAggItem(r, &tags, "a0"), genAggItem(r, &tags, "a1")}
+			tags = append(tags, "items:aggregate")
+		} else if r.Chance(35) {
 			q.Items = []Item{{Star: true}}
 			tags = append(tags, "items:star")
 		} else {
